@@ -431,7 +431,7 @@ func (SignatureProofScheme) ValidateFinalizedProof(
 	}
 
 	k := int(binary.BigEndian.Uint16(mainKeyID[:2]))
-	if k > nKeys {
+	if k == 0 || k > nKeys {
 		// Invalid/corrupted key.
 		return nil, false
 	}
@@ -439,6 +439,10 @@ func (SignatureProofScheme) ValidateFinalizedProof(
 	// Scratch combination index to reuse on every proof we process.
 	var combIndex big.Int
 	combIndex.SetBytes(mainKeyID[2:])
+	if !validCombinationIndex(nKeys, k, &combIndex) {
+		// Invalid/corrupted key.
+		return nil, false
+	}
 
 	// The bits indicating which keys in the original set have been used so far.
 	// This value is used throughout the rest loop.
@@ -507,7 +511,7 @@ func (SignatureProofScheme) ValidateFinalizedProof(
 		// First get the reduced key set.
 		reducedKeys, projections = createKeyProjection(proof.Keys, &usedOriginalBits)
 		// Then determine the bit set mapping this combination index into the reduced key set.
-		if k > len(reducedKeys) {
+		if k == 0 || k > len(reducedKeys) || !validCombinationIndex(len(reducedKeys), k, &combIndex) {
 			// Corrupt/invalid key ID.
 			return nil, false
 		}
@@ -560,6 +564,20 @@ func (SignatureProofScheme) ValidateFinalizedProof(
 	}
 
 	return signBitsByHash, true
+}
+
+// validCombinationIndex reports whether combIndex is in range
+// for choosing k out of nKeys, i.e. whether it is less than "nKeys choose k".
+// The key IDs of a finalized proof arrive over the network,
+// so this must be checked before calling decodeCombinationIndex.
+func validCombinationIndex(nKeys, k int, combIndex *big.Int) bool {
+	if k < 1 || k > nKeys {
+		return false
+	}
+
+	var count big.Int
+	binomialCoefficient(nKeys, k, &count)
+	return combIndex.Cmp(&count) < 0
 }
 
 // decodeCombinationIndex accepts n, k, and the combination index,
